@@ -110,7 +110,10 @@ CONV = [
     _conv("ms_to_minutes", "60000"),
 ]
 
-CONTRACTS = [DIFF, LINE] + CONV
+# the per-task record both races are read from (a record that has a task name is never found through its operation name): the C08 contract, claimed here too
+from contracts.C08 import METRICS as _METRICS  # noqa: E402
+
+CONTRACTS = [DIFF, LINE, dict(_METRICS, prop="C20")] + CONV
 ASSUMPTIONS = [
     "exact-real arithmetic (floats as reals); the numeric formatting f'{x:.Nf}' is an uninterpreted function of (x, N, suffix)",
     "A-COLOUR: console.format.green/red/neutral are uninterpreted functions (distinctness of the colour codes is not needed by any obligation)",
